@@ -75,7 +75,7 @@ class Project:
         except Exception as ex:
             return ('exc', '%s: %r' % (kind, ex))
 
-def interleave(opA, opB, k, quota):
+def interleave(opA, opB, k, quota, prelude=True):
     """run opA of project 1; at its k-th instrumented step run opB of project 2.  Returns violation or None, and #steps."""
     import bob.share as sh
     base = tempfile.mkdtemp(prefix='c15-'); share_dir = os.path.join(base, 'share'); os.makedirs(share_dir)
@@ -83,10 +83,12 @@ def interleave(opA, opB, k, quota):
     bid = bytes([7]) * 20; bid2 = bytes([9]) * 20
     # prelude: one package that is installed but no longer used by anybody (its project went away) and one that
     # project 2 still uses, so that gc has something to decide about
-    p3 = Project(base, 'p3', share_dir, quota)
-    pre = p3.op('install', bid2, 'other')
-    shutil.rmtree(p3.base, ignore_errors=True)
-    pre2 = p2.op('install', bytes([11]) * 20, 'used')
+    if prelude:
+        p3 = Project(base, 'p3', share_dir, quota)
+        pre = p3.op('install', bid2, 'other')
+        shutil.rmtree(p3.base, ignore_errors=True)
+        pre2 = p2.op('install', bytes([11]) * 20, 'used')
+    # (without prelude the store is still empty: repo.json does not exist yet)
     count = [0]; res = {}; thr = [None]
     saved = {n: getattr(sh, n) for n in HOOKS}; saved_os = {n: getattr(os, n) for n in OSHOOKS}
     main = threading.current_thread(); saved_unlock = sh.unlockFile
@@ -254,6 +256,19 @@ def replay(rep):
                     if w is not None: return {'reproduced': True, 'tried': tried, 'witness': w, 'also': list(known.values())}
                     if k > steps or k > 40: break      # B was not started any more: A has fewer than k steps
                     k += 1
+    # the very first installations into an empty store, two projects, different and equal Build-Ids
+    for quota in ('1', None):
+        for A, B in ((('install', bid, 'x'), ('install', bid2, 'other')), (('install', bid, 'x'), ('install', bid, 'x')), (('install', bid, 'x'), ('gc-unused', bid)), (('install', bid, 'x'), ('use', bid))):
+            k = 1
+            while True:
+                tried += 1
+                w, steps = interleave(A, B, k, quota, prelude=False)
+                if k <= steps: distinct.add(('empty-store', A[0], B[0], B[1] == A[1], k, quota))
+                if w is not None and w['kind'] in ('collected-while-in-use/builder-window', 'collected-while-in-use/install-window'): known.setdefault(w['kind'], w); w = None
+                if w is not None:
+                    w['store'] = 'empty at the start'; return {'reproduced': True, 'tried': tried, 'witness': w, 'also': list(known.values())}
+                if k > steps or k > 40: break
+                k += 1
     if known: return {'reproduced': True, 'tried': tried, 'distinct': len(distinct), 'samples': samples, 'witness': list(known.values())[0]}
     return {'reproduced': False, 'tried': tried, 'distinct': len(distinct), 'samples': samples, 'bound': 'pairs of operations of two projects, B inserted at every instrumented step of A; sequential histories <= 6 operations',
             'detail': 'no monitored clause violated'}
